@@ -330,6 +330,12 @@ func (osObj *VirtualOS) MkdirTemp(dir, pattern string) (string, error) {
 	if osObj.tmp == "" {
 		return "", errors.New("no temporary directory")
 	}
+	// As with os.MkdirTemp the pattern names a directory, not a path: with
+	// separators in it ("x/../../data/y") the new directory would be created
+	// by the temporary directory's mount at a path that belongs to another.
+	if strings.ContainsAny(pattern, "/"+string(filepath.Separator)) {
+		return "", errors.New("pattern contains path separator")
+	}
 	mount, resolvedTmp, found := osObj.findMount(osObj.tmp)
 	if !found {
 		return "", fmt.Errorf("temporary directory not found: %s", osObj.tmp)
